@@ -310,13 +310,13 @@ func c03(c *core.Check) {
 	c03Sheets(c, r5)
 
 	// ---- R6 filtered blocks never apply
-	r6 := c.Rule("R6", "the bodies of @media, @import and <link>/<style media> are processed only on paths where evaluateMediaQuery returned true; a rule is added to the matcher only when its selector parsed without error; the device media type is passed on unchanged to nested and imported sheets", 16)
+	r6 := c.Rule("R6", "the bodies of @media, @import and <link>/<style media> are processed only on paths where evaluateMediaQuery returned true; a rule is added to the matcher only when its selector parsed without error; the device media type is passed on unchanged to nested and imported sheets", 17)
 	c03Media(c, r6)
 
 	// ---- R7 every selector of a list is tested
-	r7 := c.Rule("R7", "matcher.match tests every selector of every rule against the element: each iteration of the loop over a rule's selector list reaches sel.Match, and the loop has no early exit (each matching selector contributes its own specificity)", 2)
+	r7 := c.Rule("R7", "matcher.match tests every selector of every rule against the element: each iteration of the loop over a rule's selector list reaches sel.Match, and the loop has no early exit (each matching selector contributes its own specificity)", 3)
 	c03Matcher(c, r7)
-	r10 := c.Rule("R10", "an invalid rule is dropped alone: in html/tree, css/validation and css/parser no loop tests an error that it carries over from a previous iteration (an error variable assigned in one iteration and still set in the next makes every following item fail with the first bad one)", 20)
+	r10 := c.Rule("R10", "an invalid rule is dropped alone: in html/tree, css/validation and css/parser no loop tests an error that it carries over from a previous iteration (an error variable assigned in one iteration and still set in the next makes every following item fail with the first bad one)", 26)
 	staleErrorRule(c, r10, "html/tree", "css/validation", "css/parser")
 	r11 := c.Rule("R11", "an imported sheet can be imported again: in preprocessStylesheetImports the url marked while its sheet is loaded is unmarked by a direct delete before the next rule of the importing sheet is processed", 1)
 	importScopeRule(c, r11)
